@@ -250,7 +250,7 @@ def rule_D10(body):
     return body, applied
 
 
-def rule_D12(body):
+def rule_D12(body, scaffold=False):
     """D12: `RECV.iter().fold(INIT, |acc, x| BODY)` is written as
     `{ let mut acc = INIT; for x in RECV.iter() { acc = BODY; } acc }` — the definition of Iterator::fold (std: `let mut accum = init;
     while let Some(x) = self.next() { accum = f(accum, x); } accum`).  RECV must be a plain field path, BODY (block or
@@ -287,7 +287,15 @@ def rule_D12(body):
         if re.search(r"\breturn\b|\bbreak\b|\bcontinue\b|\?", mask(cbody)):
             raise LostAnchor("rule D12: fold closure contains return/break/continue/?")
         recv = mm.group(1)
-        new = f"{{ let mut {acc} = {init}; for {var} in {recv}.iter() {{ {acc} = {cbody}; }} {acc} }}"
+        if scaffold:
+            k = len(applied) + 1
+            it, sq = f"it_fold_{k}", f"seq_fold_{k}"
+            r = re.sub(r"\s+", "", recv)
+            new = (f"({{ let mut {acc} = {init}; let ghost {sq} = {r}@; for {var} in {it}: {recv}.iter() invariant {it}.seq().len() == {sq}.len(), "
+                   f"forall|i_: int| 0 <= i_ < {it}.seq().len() ==> *(#[trigger] {it}.seq()[i_]) == {sq}[i_], /*INV:fold_{k}*/ "
+                   f"{{ /*STEP:fold_{k}*/ {acc} = {cbody}; }} {acc} }})")
+        else:
+            new = f"({{ let mut {acc} = {init}; for {var} in {recv}.iter() {{ {acc} = {cbody}; }} {acc} }})"
         applied.append(("D12", re.sub(r"\s+", " ", body[mm.start():call_close + 1])[:160], re.sub(r"\s+", " ", new)[:200]))
         body = body[:mm.start()] + new + body[call_close + 1:]
     if not applied:
@@ -309,6 +317,12 @@ def rule_D13(body):
     close = match_close(m, open_brace)          # index just after the loop's `}`
     new = (body[:mm.start()] + f"for {var} in {recv}.iter() {{ if {var}.{method}() " + body[open_brace:close] + " }" + body[close:])
     return new, [("D13", re.sub(r"\s+", " ", body[mm.start():open_brace + 1]), f"for {var} in {recv}.iter() {{ if {var}.{method}() {{ .. }} }}")]
+
+
+def rule_D12s(body):
+    """D12 with ghost scaffolding (named ghost iterator `it_fold_k`, ghost copy `seq_fold_k` of the receiver's view, the two
+    standard invariants, anchors /*INV:fold_k*/ and /*STEP:fold_k*/; k = order of appearance).  Specification text only."""
+    return rule_D12(body, scaffold=True)
 
 
 def _iter_adapter(body, method, rule, build):
@@ -337,12 +351,14 @@ def _iter_adapter(body, method, rule, build):
 
 def rule_D14(body):
     """D14: `RECV.iter().find_map(|x| BODY)` is written as
-    `{ let mut found_first_k = None; for x in RECV.iter() { if found_first_k.is_none() { found_first_k = BODY; } } found_first_k }` — the first
+    `{ let mut found_first_R = None; for x in RECV.iter() { if found_first_R.is_none() { found_first_R = BODY; } } found_first_R }` (R = last segment of RECV) — the first
     `Some` the closure yields, in iteration order.  Equal to Iterator::find_map for a closure without side effects (std stops
     calling it after the first hit; here the remaining calls are skipped by the `is_none` test).  RECV a plain path, BODY
     without return/break/continue/?; every occurrence, at least one."""
     def build(recv, var, cbody, m, k):
-        name = f"found_first_{k}"
+        name = "found_first_" + re.sub(r"\W", "", recv.split(".")[-1])
+        if re.search(r"\b" + name + r"\b", m):
+            name = f"{name}_{k}"
         if re.search(r"\b" + name + r"\b", m):
             raise LostAnchor(f"rule D14: the name {name} is already in use")
         return f"{{ let mut {name} = None; for {var} in {recv}.iter() {{ if {name}.is_none() {{ {name} = {cbody}; }} }} {name} }}"
@@ -351,13 +367,36 @@ def rule_D14(body):
 
 def rule_D15(body):
     """D15: `RECV.iter().any(|x| COND)` is written as
-    `{ let mut any_hit_k = false; for x in RECV.iter() { if !any_hit_k { any_hit_k = COND; } } any_hit_k }` (Iterator::any for a predicate
+    `{ let mut any_hit_R = false; for x in RECV.iter() { if !any_hit_R { any_hit_R = COND; } } any_hit_R }` (Iterator::any for a predicate
     without side effects).  RECV a plain path, COND without return/break/continue/?; every occurrence, at least one."""
     def build(recv, var, cbody, m, k):
-        name = f"any_hit_{k}"
+        name = "any_hit_" + re.sub(r"\W", "", recv.split(".")[-1])
+        if re.search(r"\b" + name + r"\b", m):
+            name = f"{name}_{k}"
         if re.search(r"\b" + name + r"\b", m):
             raise LostAnchor(f"rule D15: the name {name} is already in use")
         return f"{{ let mut {name} = false; for {var} in {recv}.iter() {{ if !{name} {{ {name} = {cbody}; }} }} {name} }}"
+    return _iter_adapter(body, "any", "D15", build)
+
+
+def rule_D15s(body):
+    """D15 with ghost scaffolding: as D15, and the loop gets a named ghost iterator `it_<name>`, the two standard ghost
+    invariants that identify the iterated sequence with `seq_<name>` (a ghost copy of RECV's view taken before the loop, so that a
+    loop variable shadowing a name in RECV does no harm), and two ghost anchors `/*INV:<name>*/` (inside the invariant
+    block) and `/*STEP:<name>*/` (first statement of the loop body) at which a template attaches its own invariants / lemma
+    calls.  All additions are specification text; the executable text is that of D15."""
+    def build(recv, var, cbody, m, k):
+        name = "any_hit_" + re.sub(r"\W", "", recv.split(".")[-1])
+        if re.search(r"\b" + name + r"\b", m):
+            name = f"{name}_{k}"
+        if re.search(r"\b" + name + r"\b", m):
+            raise LostAnchor(f"rule D15s: the name {name} is already in use")
+        it = "it_" + name
+        r = re.sub(r"\s+", "", recv)
+        sq = "seq_" + name
+        return (f"({{ let mut {name} = false; let ghost {sq} = {r}@; for {var} in {it}: {recv}.iter() invariant {it}.seq().len() == {sq}.len(), "
+                f"forall|i_: int| 0 <= i_ < {it}.seq().len() ==> *(#[trigger] {it}.seq()[i_]) == {sq}[i_], /*INV:{name}*/ "
+                f"{{ /*STEP:{name}*/ if !{name} {{ {name} = {cbody}; }} }} {name} }})")
     return _iter_adapter(body, "any", "D15", build)
 
 
@@ -428,7 +467,7 @@ def rule_D4t(body):
     return pat.sub("range_from_element(", body), [("D4", "<Option<&SubtypeElements> as TryInto<PerVisibleRangeConstraints>>::try_into(", "range_from_element(")] * n
 
 
-RULES = {"D2": rule_D2, "D5": rule_D5, "D5c": rule_D5c, "D5m": rule_D5m, "D9": rule_D9, "D4t": rule_D4t, "D10": rule_D10, "D5b": rule_D5b, "D12": rule_D12, "D13": rule_D13, "D14": rule_D14, "D15": rule_D15}
+RULES = {"D2": rule_D2, "D5": rule_D5, "D5c": rule_D5c, "D5m": rule_D5m, "D9": rule_D9, "D4t": rule_D4t, "D10": rule_D10, "D5b": rule_D5b, "D12": rule_D12, "D13": rule_D13, "D14": rule_D14, "D15": rule_D15, "D15s": rule_D15s, "D12s": rule_D12s}
 
 
 class FnUnit:
@@ -662,7 +701,9 @@ def build(template_path, repo_root):
             # --- ghost insertions (specification only) ---
             ghost = []
             for pos, ordinal, anchor, gtext in fu.inserts:
-                if not (gtext.strip().startswith(GHOST_PREFIXES) or re.fullmatch(r"it\d*:", gtext.strip())):
+                if anchor.startswith("/*INV:"):
+                    pass    # inside an invariant block (placed there by a scaffolding rule): whatever is inserted is a spec expression
+                elif not (gtext.strip().startswith(GHOST_PREFIXES) or re.fullmatch(r"it\d*:", gtext.strip())):
                     raise TemplateError(f"fn {fu.name}: ghost insertion must start with one of {GHOST_PREFIXES}: {gtext.strip()[:40]}")
                 hits = find_all(body, anchor)
                 if ordinal is None:
